@@ -338,12 +338,14 @@ impl Function {
             | Function::Md5
             | Function::CastAsText
             | Function::CastAsFloat
-            | Function::CastAsInteger
-            | Function::CastAsBoolean
             | Function::CastAsDateTime
-            | Function::CastAsDate
-            | Function::CastAsTime
             | Function::Unhex => true,
+            // Lossy casts (float -> integer truncates, anything -> boolean, datetime -> date / time)
+            // map distinct values to the same value: they do not preserve uniqueness
+            Function::CastAsInteger
+            | Function::CastAsBoolean
+            | Function::CastAsDate
+            | Function::CastAsTime => false,
             _ => false,
         }
     }
